@@ -37,6 +37,7 @@ type VRow struct {
 	Expect  bool   `json:"expect"`
 }
 type PRow struct {
+	Regossip   *bool  `json:"regossip,omitempty"` // replay: force / forbid the gossip tick + second certification
 	Certifiers []int  `json:"certifiers"`
 	Height     uint32 `json:"height"`
 }
@@ -229,6 +230,7 @@ func replay(cfg *node.Config, d *Dump) {
 		}
 	}
 	// ---- completeness: the node's own aggregate passes the node's own verification
+	poolCase := 0
 	for _, r := range d.Pool {
 		clear()
 		for _, c := range r.Certifiers {
@@ -247,6 +249,24 @@ func replay(cfg *node.Config, d *Dump) {
 				n.Ex.VerifSingleCommitValidator(msg.Encode())
 			}
 		}
+		regossip := poolCase%2 == 1
+		if r.Regossip != nil {
+			regossip = *r.Regossip
+		}
+		if regossip {
+			// the gossip tick in between (what broadcastCertificate does to the pool: the selected commits move to the
+			// "gossiped" list), then every validator certifies once more and its commits arrive again: nothing may be
+			// counted twice
+			sel := n.Ex.VerifPool().Select(d.State.Mhpc, cfg.NVal)
+			n.Ex.VerifPool().Upgrade(sel)
+			for _, c := range r.Certifiers {
+				v := node.Validator(c)
+				if err := n.Ex.Certify(d.State.Cert, d.State.Mhpc, v.Address, v.BLS.PrivateKey); err != nil {
+					viol("certify-error", "Certify failed: "+err.Error(), state)
+				}
+			}
+		}
+		poolCase++
 		var ac *blockchain.AggregateCommit
 		var gerr error
 		func() {
@@ -257,7 +277,7 @@ func replay(cfg *node.Config, d *Dump) {
 			}()
 			ac, gerr = n.Ex.GetAggregateCommit()
 		}()
-		rep := map[string]interface{}{"script": d.Script, "state": d.State, "pool": r}
+		rep := map[string]interface{}{"script": d.Script, "state": d.State, "pool": r, "regossip": regossip}
 		mu.Lock()
 		out.PoolCases++
 		mu.Unlock()
